@@ -3,7 +3,8 @@ CONSTANTS
  Confs <- LockConfs
  MaxCloses = 3
  MaxOps = 2
- KeyMode = "clean"
+ KeyMode = "resolve"
+ LockRefTgt = TRUE
  Eager = FALSE
 SPECIFICATION Spec
 INVARIANTS TypeOK LocksNonNeg LocksExact MarkIsReach FallbackPresent CopyKeeps
